@@ -587,6 +587,47 @@ fn state_query_case(r: &mut Rng, known_clock_removed: bool, stats: &mut Stats) -
 	Ok(())
 }
 
+/// A pause whose fade-out tween has a delayed start: the track keeps playing (reported Pausing) until the start time,
+/// then fades for the tween's duration (also when that is zero) and only then freezes.
+fn delayed_fade_case(r: &mut Rng, stats: &mut Stats) -> Result<(), String> {
+	let mut rig = Rig::simple(SR, IBS);
+	let mut t = rig.mgr.add_sub_track(TrackBuilder::new()).map_err(|_| "t")?;
+	let s = t.play(crate::probes::dc_sound(SR, 100_000, 0.25)).map_err(|_| "play")?;
+	for _ in 0..r.usize_in(1, 3) {
+		rig.callback(IBS);
+	}
+	let delay_chunks = r.usize_in(2, 8);
+	let dur_chunks = *r.pick(&[0.0f64, 0.0, 1.0, 2.5]);
+	let chunk_s = IBS as f64 / SR as f64;
+	t.pause(Tween { start_time: StartTime::Delayed(Duration::from_secs_f64(delay_chunks as f64 * chunk_s)), duration: Duration::from_secs_f64(dur_chunks * chunk_s), easing: kira::Easing::Linear });
+	let mut prev_pos = s.position();
+	for k in 0..delay_chunks + dur_chunks.ceil() as usize + 4 {
+		let out = rig.callback(IBS).to_vec();
+		stats.callbacks += 1;
+		let pos = s.position();
+		let st = t.state();
+		if k + 1 < delay_chunks {
+			// well before the start time: full level, position advancing
+			if out.iter().any(|x| (*x - out[0]).abs() > 1e-6) || out[0].abs() < 0.1 {
+				return Err(format!("pause with a fade that starts after {} chunks (duration {} chunks): callback {} is already attenuated or silent ({:?}..), state {:?}", delay_chunks, dur_chunks, k, &out[..2], st));
+			}
+			if k > 0 && pos <= prev_pos {
+				return Err(format!("pause with a fade that starts after {} chunks: the sound's position stands still in callback {} (state {:?})", delay_chunks, k, st));
+			}
+			if st != TrackPlaybackState::Pausing {
+				return Err(format!("pause with a fade that starts after {} chunks: state {:?} in callback {}, expected Pausing", delay_chunks, st, k));
+			}
+		}
+		if k >= delay_chunks + dur_chunks.ceil() as usize + 2 {
+			if st != TrackPlaybackState::Paused || out.iter().any(|x| *x != 0.0) || pos != prev_pos {
+				return Err(format!("pause with a fade that starts after {} chunks (duration {} chunks): callback {} should be frozen and silent: state {:?}, output {:?}, position {} -> {}", delay_chunks, dur_chunks, k, st, &out[..2], prev_pos, pos));
+			}
+		}
+		prev_pos = pos;
+	}
+	Ok(())
+}
+
 #[derive(Default)]
 pub struct Stats {
 	pub callbacks: u64,
@@ -614,7 +655,13 @@ pub fn run(ctx: &mut Ctx) {
 		let res = super::guarded(|| match kind {
 			0..=5 => tree_case(&mut r, &mut stats),
 			6 | 7 => delay_extension_case(&mut r, &mut stats),
-			_ => state_query_case(&mut r, clock_known, &mut stats),
+			_ => {
+				if r.chance(0.4) {
+					delayed_fade_case(&mut r, &mut stats)
+				} else {
+					state_query_case(&mut r, clock_known, &mut stats)
+				}
+			}
 		});
 		crate::monitors::clear_current();
 		if kind >= 8 && clock_known {
